@@ -1061,6 +1061,8 @@ impl Gen {
                 match variant {
                     0 => total + 1,
                     1 => total.saturating_sub(1),
+                    // exactly the fee, nothing for the declared reward
+                    3 if !fee.amount.is_zero() => fee.amount.u128(),
                     _ => total,
                 },
                 denom.clone(),
